@@ -74,6 +74,8 @@ def run(chk):
     chk.configs = ["py3"]
     W = world()
     p = W.p
+    from . import formulas
+    formulas.loop_accumulator_updates(chk, p, "C07", "R07.7")
     M = ModP(p, "PointJacobi")
     from . import identity
     from .c06 import identity_operand_rule
